@@ -943,7 +943,11 @@ pub fn mutate(base: &Program, m: usize, rng: &mut Rng) -> Option<Program> {
         }
         11 => {
             // call of something that is not a procedure
-            let n = *rng.pick(&["tail_Z", "start", "nosuch_P"]);
+            let n = *rng.pick(&["tail_Z", "start", "nosuch_P", "calldata_V", "calldata_V"]);
+            if n == "calldata_V" {
+                // (a data label is not a procedure either)
+                p.data.push(DataItem::Def { label: Some(n.to_string()), dir: if rng.chance(1, 2) { "db" } else { "dw" }, form: DataForm::Num(1) });
+            }
             p.items.push(Item::Bad(Ins::Call { name: n.to_string(), target: 0 }, "call".to_string()));
         }
         12 => {
